@@ -148,5 +148,5 @@ ASSUMPTIONS = {
           "instrumented key/value types (TKey/TVal with declared heap sizes, unique ids) stand for arbitrary K, V",
           "the verif-hooks feature only adds a read-only walker; the library code under test is otherwise the working tree of /repo"],
     "C01": ["every single entry size is representable in usize (sums are not restricted)"],
-    "C02": [job("typevar", "native", 1, ["--layouts", "400"]), "declared sizes change only inside mutate (no interior mutability)"],
+    "C02": ["declared sizes change only inside mutate (no interior mutability)"],
 }
